@@ -450,6 +450,9 @@ struct SctpInner {
     stats_heartbeats_sent: AtomicU64,
     stats_created_time: Instant,
     close_reason: Mutex<Option<String>>,
+    /// verification hooks: which endpoint of a pair this is ("A" / "B", from RtcConfiguration::label)
+    #[cfg(rustrtc_verif)]
+    verif_label: Option<&'static str>,
 }
 
 struct SctpCleanupGuard<'a> {
@@ -901,6 +904,12 @@ impl SctpTransport {
             stats_heartbeats_sent: AtomicU64::new(0),
             stats_created_time: Instant::now(),
             close_reason: Mutex::new(None),
+            #[cfg(rustrtc_verif)]
+            verif_label: match config.label.as_deref() {
+                Some("A") => Some("A"),
+                Some("B") => Some("B"),
+                _ => None,
+            },
             outgoing_packet_tx,
         });
 
@@ -4144,6 +4153,13 @@ impl SctpInner {
 #[cfg(rustrtc_verif)]
 impl SctpInner {
     fn verif_inst(&self) -> &'static str {
+        // the endpoint's label when the harness gave one (both ends may be SCTP clients), else the role
+        // (only when the harness asks for it: other harnesses rely on the role-based name)
+        if let Some(l) = self.verif_label
+            && crate::verif::get_override("sctp_inst_by_label") == Some(1)
+        {
+            return l;
+        }
         if self.is_client { "A" } else { "B" }
     }
 
